@@ -2,6 +2,7 @@ import UscxmlVerif.Model.Large
 import UscxmlVerif.Spec.W3C
 import UscxmlVerif.Proofs.Select
 import UscxmlVerif.Proofs.CfgInv
+import UscxmlVerif.Proofs.Interval
 /-!
 # C01 — the interpreter follows the W3C SCXML step algorithm
 
@@ -21,6 +22,23 @@ theorem selection_conflict_free_partial (c : Chart) (config : List Nat) (ev : Op
     ∀ i ∈ (Large.selectLoop c config ev pf { x := x }).transSet, ∀ j ∈ (Large.selectLoop c config ev pf { x := x }).transSet,
       i ≠ j → overlaps (exitSet c (tr c i)) (exitSet c (tr c j)) = false :=
   Proofs.Select.large_selection_conflict_free c config ev pf x
+
+/-- **pre-emption in Appendix D's terms**: on a chart that is coherent and numbered in pre-order (both decidable, evaluated on
+every generated chart), two distinct transitions LargeMicroStep selects - transitions of real states with real targets -
+never leave a common state in the sense of Appendix D's `computeExitSet`, in any configuration of real states: the optimal
+transition set is conflict-free as `removeConflictingTransitions` demands. Not covered: *which* of two conflicting
+transitions wins (document order), decided by the comparison with `Spec.W3C.run`. -/
+theorem selection_conflict_free_w3c (c : Chart) (hc : Proofs.Struct.Coherent c = true) (hi : Proofs.Interval.IntervalOK c = true)
+    (config : List Nat) (ev : Option String) (pf : List Nat) (x : XS) (S : Spec.W3C.SState) (hcfg : Proofs.Struct.ConfigOk c S.config)
+    (hplain : ∀ i ∈ (Large.selectLoop c config ev pf { x := x }).transSet, Properties.C05.plainTrans c (Model.Tables.tr c i) = true) :
+    ∀ i ∈ (Large.selectLoop c config ev pf { x := x }).transSet, ∀ j ∈ (Large.selectLoop c config ev pf { x := x }).transSet,
+      i ≠ j → ∀ s, ¬ (s ∈ Spec.W3C.exitSetOf c S i ∧ s ∈ Spec.W3C.exitSetOf c S j) := by
+  intro i hi' j hj hne s hs
+  have hno := selection_conflict_free_partial c config ev pf x i hi' j hj hne
+  exact Proofs.Interval.disjoint_of_not_overlaps c hc hi S hcfg i j (hplain i hi') (hplain j hj) hno s hs.1 hs.2
+
+/-- the numbering hypothesis holds of a concrete chart (and `Coherent` of the same one, `Properties.C05.sample`) -/
+example : Proofs.Interval.IntervalOK Properties.C05.sample = true := by decide
 
 /-- the relation is the intended one on a concrete pair: [2,3] and [3,5] overlap, [2,3] and [4,5] do not, an empty
 exit set (first = 0) overlaps nothing -/
